@@ -256,13 +256,20 @@ def gen(rng: Rng, tier, i):
     for j in range(rng.pick([2, 3, 4, 5])):
         r = rng.fork(("op", j))
         k = r.weighted([("recon", 4), ("reload", 4), ("clone", 2), ("clone_fallback", 1),
-                        ("save_keep", 1), ("recon_reset", 0.5), ("to_cpu", 0.8)])
+                        ("save_keep", 1), ("recon_reset", 0.5), ("to_cpu", 0.8), ("save_fail_keep", 1)])
         if k == "recon":
             ops.append({"op": "recon", "n": r.pick([1, 1, 2, 3])})
         elif k == "recon_reset":
             ops.append({"op": "recon", "n": r.pick([1, 2]), "reset": True})
         elif k == "save_keep":
             ops.append({"op": "save_keep", "store": r.pick(["zip", "dir"]), "level": r.pick([None, 4])})
+        elif k == "save_fail_keep":
+            # a checkpoint that FAILS part-way (disk full at the k-th store operation, maybe for the
+            # rest of the call), after which the user carries on with the same live object
+            ops.append({"op": "save_fail_keep", "store": r.pick(["zip", "dir"]), "level": r.pick([None, 4]),
+                        "k": r.pick([0, 1, 2, 5, 9, 17, 33, 60, 110, 200, 400]),
+                        "when": r.pick(["before", "after"]), "sticky": r.chance(0.4),
+                        "errno": r.pick(["ENOSPC", "EIO", "MemoryError", "ValueError"])})
         elif k == "reload":
             ops.append({"op": "reload", "store": r.pick(["zip", "dir"]), "level": r.pick([None, 0, 4, 9]),
                         "path_kind": r.pick(["str", "Path"])})
@@ -697,6 +704,25 @@ def run(plan):
                         viol("save_changed_source", f"{tag}: saving changed the live object: {d0}",
                              "save_changed_source:" + d0[0].split(" ")[0])
                     bump(probes, "save_then_continue_same_object")
+                    interrupted += 1
+                    last_was_interrupt = True
+                    continue
+                if k == "save_fail_keep":
+                    name = f"fail{j}.zip" if op["store"] == "zip" else f"fail{j}"
+                    armed = {"kind": "store", "k": op["k"], "when": op["when"], "errno": op["errno"],
+                             "sticky": op["sticky"]}
+                    _, exc, _ = E.call(lambda: R.save(E.path(name), mode="w", store=op["store"],
+                                                      compression_level=op["level"],
+                                                      save_raw_data=True, verbose=0), armed=armed)
+                    if exc is not None:
+                        bump(probes, "checkpoint_failed_then_continued")
+                        bump(res["faults"], "store_error_during_checkpoint")
+                    d0 = _cmp_exact(old, _state(R))
+                    if d0:
+                        viol("save_changed_source", f"{tag}: a save that "
+                             f"{'failed (' + type(exc).__name__ + ')' if exc is not None else 'succeeded'} "
+                             f"changed the live object: {d0}",
+                             "save_changed_source:failed:" + d0[0].split(" ")[0])
                     interrupted += 1
                     last_was_interrupt = True
                     continue
